@@ -79,13 +79,18 @@ pub fn gen(seed: u64, thorough: bool) {
         let mut g2 = e.generator(utterances[1].clone()).unwrap();
         let (mut o1, mut o2) = (Vec::new(), Vec::new());
         let mut buf = vec![0.0; fp];
+        let mut iter = 0usize;
         loop {
             let a = g1.generate_step(&mut buf);
             if a > 0 { o1.extend_from_slice(&buf); }
-            let mid = e.synthesize(utterances[2].clone()).unwrap();
+            // a whole synthesis in between the two live generators, every eighth step
+            if iter % 8 == 0 {
+                let mid = e.synthesize(utterances[2].clone()).unwrap();
+                if !bits_eq(&mid, &reference[2]) { o1.clear(); break; }
+            }
+            iter += 1;
             let b = g2.generate_step(&mut buf);
             if b > 0 { o2.extend_from_slice(&buf); }
-            if !bits_eq(&mid, &reference[2]) { o1.clear(); break; }
             if a == 0 && b == 0 { break; }
         }
         let interleave_ok = bits_eq(&o1, &reference[0]) && bits_eq(&o2, &reference[1]);
